@@ -674,7 +674,7 @@ nng_url_clone(nng_url **dstp, const nng_url *src)
 	if ((dst = NNI_ALLOC_STRUCT(dst)) == NULL) {
 		return (NNG_ENOMEM);
 	}
-	if ((rv = nni_url_clone_inline(dst, src) != NNG_OK)) {
+	if ((rv = nni_url_clone_inline(dst, src)) != NNG_OK) {
 		NNI_FREE_STRUCT(dst);
 		return (rv);
 	}
